@@ -209,7 +209,7 @@ PROPS = {
         level_text='Unbounded deductive proof (Verus/Z3) that, with NO precondition on the proof value beyond its Rust type, FRI shape validation and the '
                    'FRI verifier reach no failing index, slice, subtraction, shift, unwrap or assertion: every such operation in the extracted '
                    'bodies is a discharged obligation, and shape validation is the only place allowed to establish length facts. The same for the STARK entry: validate_proof_shape / '
-                   'check_lookup_options / recover_degree_bits (starky) read the first Merkle path, subtract rate_bits and shift by cap_height only after establishing that this is safe (F3), for every proof value; and verify_stark_proof returns Ok only after that validation, which it runs BEFORE deriving challenges from the proof (F7).',
+                   'check_lookup_options / recover_degree_bits (starky) read the first Merkle path, subtract rate_bits and shift by cap_height only after establishing that this is safe (F3), for every proof value; and verify_stark_proof returns Ok only after that validation, which it runs BEFORE deriving challenges from the proof (the order F3 was about: without the validation call the postcondition fails).',
         level_note='Trusted: Verus+Z3; parameters from the common data satisfy params_ok/instances_ok; unverified callees (T10) assumed panic-free under '
                    'their stated preconditions. Byte decoders, the decompression of compressed proofs (the open finding F5 is a panic there; unit compressed_verify treats those functions as uninterpreted and total, so it does NOT speak about their panics) and the STARK verifier after shape validation are covered by the bounded stand-in only '
                    '(c18_c17_decoders: truncations / bit flips / 0xff runs of encoded proofs and circuit data; c18_compressed_malformed: open finding F5; '
